@@ -265,6 +265,15 @@ func (w *world) round(failMask int) {
 	w.hc.VerifPeriodicRound(ctx)
 }
 
+// forced: like RunHealthCheck(force): every endpoint is checked now, without waiting for its next check time
+func (w *world) forced(failMask int) {
+	vclock.Advance(100 * time.Millisecond)
+	for i := range w.names {
+		w.client.fail[host(i)] = failMask&(1<<uint(i)) != 0
+	}
+	w.hc.VerifCheckAll(ctx)
+}
+
 type dispatch struct {
 	ep          string
 	step        int
@@ -301,7 +310,7 @@ func (e ev) String() string { return fmt.Sprintf("%s(%b)", e.kind, e.mask) }
 func e2(n, depth int, strat string) {
 	var alpha []ev
 	for m := 0; m < 1<<uint(n); m++ {
-		alpha = append(alpha, ev{"round-fail", m}, ev{"request-refuse", m})
+		alpha = append(alpha, ev{"round-fail", m}, ev{"request-refuse", m}, ev{"forced-round-fail", m})
 	}
 	idx := 0
 	var gen func(h []ev)
@@ -333,8 +342,12 @@ func runE2(n int, strat string, h []ev) {
 		inRotation := map[string]bool{} // reference: healthy according to completed updates
 		for _, e := range h {
 			switch e.kind {
-			case "round-fail":
-				w.round(e.mask)
+			case "round-fail", "forced-round-fail":
+				if e.kind == "round-fail" {
+					w.round(e.mask)
+				} else {
+					w.forced(e.mask)
+				}
 				vsched.WaitOthers()
 				for i, nm := range w.names {
 					inRotation[nm] = e.mask&(1<<uint(i)) == 0
@@ -491,7 +504,7 @@ func main() {
 	res = report.Init("C03", "model_checking")
 	maxN := 4
 	e1(maxN)
-	d2, d3 := 5, 3
+	d2, d3 := 4, 3
 	if report.Thorough() {
 		d2, d3 = 6, 4
 	}
@@ -510,7 +523,7 @@ func main() {
 		e3(strat, false, b)
 		e3(strat, true, b)
 	}
-	res.Info["bounds"] = map[string]any{"E1": "lists n<=4 over status(6) x priority{0,1,2} x 3 balancers (priority: 8 RNG cells)", "E2": fmt.Sprintf("2 endpoints depth %d, 3 endpoints depth %d; events: health round with every per-endpoint outcome mask, request with every per-endpoint refuse mask", d2, d3),
+	res.Info["bounds"] = map[string]any{"E1": "lists n<=4 over status(6) x priority{0,1,2} x 3 balancers (priority: 8 RNG cells)", "E2": fmt.Sprintf("2 endpoints depth %d, 3 endpoints depth %d; events: periodic health round (61 s later) and forced health round (at once) with every per-endpoint outcome mask, request with every per-endpoint refuse mask", d2, d3),
 		"E3": fmt.Sprintf("3 threads, preemption bound %d", b)}
 	res.Info["rule"] = "states = distinct histories ending in a request (E2) and distinct dispatch outcomes (E3); every dispatch is produced by the real RetryHandler.ExecuteWithRetry + selector + repository + health checker"
 	res.Assume("the repository's map iteration order is neutralised by sorting the healthy snapshot by name", "health probes answered by a scripted HTTPClient; time owned through vclock")
